@@ -12,7 +12,7 @@ LEVEL = "proof"
 PROPS = "Walk/Props_C08.v"
 COQ_FILES = wc.COQ_FILES + ["Walk/Perm.v", "Walk/SortProofs.v", "Walk/PermProofs.v", "Walk/MultiProofs.v", "Walk/Props_C08.v"]
 THEOREMS = ["walk_perm_invariant", "cmp_packages_total_preorder", "sorted_output_canonical", "sorted_statuses_canonical",
-            "sorted_findings_canonical", "multiroot_is_union"]
+            "sorted_findings_canonical", "multiroot_is_union", "multiroot_statuses", "multiroot_status_order_invariant"]
 
 META = {
     "technique": "Coq proof over all trees and all re-listings (mutual induction over the tree-permutation relation on the pure "
@@ -22,7 +22,7 @@ META = {
     "level_text": "Theorems: walk_perm_invariant (for every tree and every re-listing of every directory at every depth: same multiset "
                   "of Extract calls and packages, same plugin statuses up to the order of failure items; fault-free trees, no limit/"
                   "cancel), sorted_output_canonical + cmp_packages_total_preorder (sortResults emits a CmpPackages-sorted list whose "
-                  "sequence of sort keys depends on the multiset only), sorted_statuses_canonical. sorted_findings_canonical (findings sorted by reference, then extra). filesystem.Run over any number of roots reports exactly the union of the single-root runs and one status per plugin (multiroot_is_union, full statement: the duplication defect was repaired in /repo commit 0811a249, its witness is in the regression corpus). Go map-iteration order: each generated case is run three times and must give "
+                  "sequence of sort keys depends on the multiset only), sorted_statuses_canonical. sorted_findings_canonical (findings sorted by reference, then extra). filesystem.Run over any number of roots reports exactly the union of the single-root runs and one status per plugin, which is the one the Extract calls of all roots together dictate and does not depend on the order of the roots (multiroot_is_union, multiroot_statuses, multiroot_status_order_invariant; full statements: the duplication defect was repaired in /repo commit 0811a249, its witness is in the regression corpus). Go map-iteration order: each generated case is run three times and must give "
                   "the identical observation (search, not proof).",
     "level_note": "Trusted: Coq kernel + vm_compute; harness (listing order per directory is chosen by the PRNG and given to the model); "
                   "slices.SortFunc is modelled as insertion sort - ties under CmpPackages are packages with identical sort keys, "
